@@ -28,5 +28,6 @@ INIT Init
 NEXT Next
 INVARIANT AlwaysWellFormed
 INVARIANT RenameInvariant
+INVARIANT BodyAgrees
 INVARIANT NoReuse
 CHECK_DEADLOCK FALSE
